@@ -84,6 +84,17 @@ CHECKS = {
         "Trusted: harness/gen.py (grammar, expected_view), the library constructors storing their arguments (asserted per case).",
         "DESIGN.md section 4, C20",
     ),
+    "C01": (
+        "exploration",
+        "Hypothesis deployments (incl. inheritance) x mixed driver/client histories with in-flight batches x independent fragmentation of four byte streams; three-way oracle: spec-derived expectation, reference interpreter over the raw wire bytes, library client views (network + snooping)",
+        "Generated-input search through the whole stack in one process with the harness owning fragmentation and quiescence: after every "
+        "settle point the property set expected from the generating spec and the drivers' attributes must equal both what an "
+        "independent reference client derives from the raw bytes on the wire and what the library's network client and an in-process "
+        "snooping client show, in both directions, with numbers judged by denoted value and notation and BLOBs by definition epoch. "
+        "Exploration: bounded sizes and histories, absence not established.",
+        "Trusted: harness/drivers.py (spec model), harness/refclient.py, harness/refnum.py, harness/net.py (fake pipes, settle order).",
+        "DESIGN.md section 4, C01",
+    ),
     "C02": (
         "exploration",
         "exhaustive 1/2/3-cut and char-by-char partition sweeps of a corpus + Hypothesis streams/partitions, prefix-delivery oracle from the generating specs",
